@@ -52,6 +52,8 @@ pub struct SorterBuilder<MF, CC> {
     sort_algorithm: SortAlgorithm,
     sort_in_parallel: bool,
     merge: MF,
+    #[cfg(feature = "verif")]
+    verif_initial_capacity: Option<usize>,
 }
 
 impl<MF> SorterBuilder<MF, DefaultChunkCreator> {
@@ -71,6 +73,8 @@ impl<MF> SorterBuilder<MF, DefaultChunkCreator> {
             sort_algorithm: SortAlgorithm::Stable,
             sort_in_parallel: false,
             merge,
+            #[cfg(feature = "verif")]
+            verif_initial_capacity: None,
         }
     }
 }
@@ -172,7 +176,23 @@ impl<MF, CC> SorterBuilder<MF, CC> {
             sort_algorithm: self.sort_algorithm,
             sort_in_parallel: self.sort_in_parallel,
             merge: self.merge,
+            #[cfg(feature = "verif")]
+            verif_initial_capacity: self.verif_initial_capacity,
         }
+    }
+
+    /// Verification hook: sets the dump threshold without the 10MB clamp and optionally
+    /// overrides the initial capacity of the in-memory buffer, so that harnesses can reach
+    /// the spill, chunk-merge and reallocation paths with kilobyte-sized inputs.
+    #[cfg(feature = "verif")]
+    pub fn verif_raw_limits(
+        &mut self,
+        dump_threshold: usize,
+        initial_capacity: Option<usize>,
+    ) -> &mut Self {
+        self.dump_threshold = dump_threshold;
+        self.verif_initial_capacity = initial_capacity;
+        self
     }
 }
 
@@ -181,6 +201,8 @@ impl<MF, CC: ChunkCreator> SorterBuilder<MF, CC> {
     pub fn build(self) -> Sorter<MF, CC> {
         let capacity =
             if self.allow_realloc { INITIAL_SORTER_VEC_SIZE } else { self.dump_threshold };
+        #[cfg(feature = "verif")]
+        let capacity = self.verif_initial_capacity.unwrap_or(capacity);
 
         Sorter {
             chunks: Vec::new(),
